@@ -4,7 +4,9 @@ H (histories, live daemon): generated histories of connections opening, calling 
   class per case with mode single / session / percall, instance shapes truthy / falsy via __len__ or __bool__ / custom
   __eq__+__hash__, with or without an instance creator (which may fail or return the wrong type on scripted attempts).
   Every instance takes a serial number in __init__; every call returns it.  A reference model says which serial each
-  call must report.
+  call must report.  Steps may also be ONEWAY calls (the method records, under a token, which instance served it; the
+  first call of a connection / of the daemon may be one, so the instance is created on behalf of a oneway call), the
+  constructor may take a moment ("slowinit"), and a creator may fail with a TypeError of its own.
 S (schedules): N in {2,3} threads perform the first call on a 'single' class through Daemon._getInstance under the
   harness-owned scheduler (vlib.sched), all schedules with <= 2 deviations from run-to-block plus random ones.
 """
@@ -21,11 +23,13 @@ from vlib import sched as S
 
 PROPERTY = "C09"
 LEVEL = "exploration"
-RULE = ("H: a case = (mode, instance shape, creator script, history of <= 14 open/call/close steps over <= 3 connections); S: a case = "
+RULE = ("H: a case = (mode, instance shape, creator script, history of <= 14 open/call/oneway-call/close/abort steps over <= 3 connections); S: a case = "
         "(2-3 racing first calls on a single-mode class, shape, creator yes/no, schedule = choices at numbered decisions, one per executed "
         "line of server.py). Non-trivial: H - at least 2 connections with >= 2 calls on one of them, or a falsy shape, or a failing creator; "
         "S - the schedule preempts inside _getInstance at least once. distinct = distinct case JSON")
-ASSUMPTIONS = ["a fresh class object per case (the daemon is reused across cases)", "session instances must be unreachable once the server has run its disconnect handling (awaited through the disconnect hook)",
+ASSUMPTIONS = ["a fresh class object per case (the daemon is reused across cases)",
+               "whether a oneway call is carried out at all is not judged, only which instance served it; before a connection with an unanswered oneway call "
+               "is closed (and at the end) a synchronous ping to the daemon's own object on the same connection makes sure the server has taken the request up", "session instances must be unreachable once the server has run its disconnect handling (awaited through the disconnect hook)",
                "scheduler granularity = one source line of server.py; the single-instance lock is replaced by a scheduler-aware lock"]
 
 SERIAL = itertools.count(1)
